@@ -268,6 +268,45 @@ def Filt.grad (F : Filt α) (n : Nat) (y : Nat → Nat → Nat → α) (s r j : 
 def Filt.ll (F : Filt α) (n : Nat) (y : Nat → Nat → Nat → α) : Except PErr (Score α) :=
   filterLL F.kind F.m n F.R F.T F.obs y
 
+/-! ## `sort_times` and SHARED measurement arrays
+
+`GaussianFilter`, `GaussianKDEFilter` and `GaussianMixtureFilter` keep the caller's ndarray (or a view
+of it): several filters may refer to the same array.  Arrays are cells of a store; `sort_times` makes a
+NEW array by fancy indexing and rebinds the filter's attribute, it never writes into the shared one. -/
+
+/-- measurement arrays by identity (index) -/
+abbrev ObsStore (α : Type) := List (Nat → Nat → Nat → Option α)
+
+/-- a filter object referring to the measurement array `ref` -/
+structure FiltRef where
+  kind : FKind
+  m : Nat
+  R : Nat
+  T : Nat
+  ref : Nat
+
+def FiltRef.deref (st : ObsStore α) (F : FiltRef) : Option (Filt α) :=
+  (st[F.ref]?).map (fun o => ⟨F.kind, F.m, F.R, F.T, o⟩)
+
+/-- `self._observations = self._observations[..., order]` -/
+def sortTimesRef (st : ObsStore α) (F : FiltRef) (ord : List Nat) : Except PErr (ObsStore α × FiltRef) :=
+  match F.deref st with
+  | none => .error .indexError
+  | some G =>
+    match G.sortTimes ord with
+    | .error e => .error e
+    | .ok G' => .ok (st ++ [G'.obs], { F with ref := st.length })
+
+/-- NOT chi: `self._observations[...] = self._observations[..., order]` (writes into the shared array) -/
+def sortTimesRefInPlace (st : ObsStore α) (F : FiltRef) (ord : List Nat) :
+    Except PErr (ObsStore α × FiltRef) :=
+  match F.deref st with
+  | none => .error .indexError
+  | some G =>
+    match G.sortTimes ord with
+    | .error e => .error e
+    | .ok G' => .ok (st.set F.ref G'.obs, F)
+
 /-! ## ComposedPopulationFilter -/
 
 structure Comp (α : Type) where
